@@ -124,7 +124,8 @@ def plan(prop, tier):
         "C08": [("transforms", {"C08"}, "any", "release",
                  [ops("xform", ALLF, 200 if q else 2000, 3 if q else 4, 100 if q else 140), ops("xform", "tshare,cxsplit,hang,tshare", 300 if q else 3000, 3, 100)])],   # configurations whose treatment depends on the sweep direction: every symmetry of them
         "C09": [("farparts", {"C09"}, "any", "release",
-                 [ops("far", ALLF, 250 if q else 2500, 3 if q else 4, 100 if q else 140), ops("far", "lat,hang,frames,hang", 400 if q else 4000, 3, 100)])],     # hang: slivers reaching into the other operand's box from outside
+                 [ops("far", ALLF, 250 if q else 2500, 3 if q else 4, 100 if q else 140), ops("far", "lat,hang,frames,hang", 400 if q else 4000, 3, 100),
+                  ops("fwit", ROTF, 300 if q else 3000, 3, 120), ops("fwit32", ROTF, 120 if q else 1200, 3, 120)])],    # float operands, one session in three with a far part on A (a base operand of its own)     # hang: slivers reaching into the other operand's box from outside
         "C10": [("f32-agrees", {"C10"}, "any", "release",
                  [corpus("fan_f32.ndjson"), ops("f32", ALLF, 250 if q else 2500, 3 if q else 4, 100 if q else 140),
                   ops("f32", "fan", 250 if q else 2500, 3, 100), ops("f32", "bigfan23,bigfan24,bigfan20", 400 if q else 4000, 3, 100)]),
